@@ -472,3 +472,24 @@ Theorem c08_run_session_present_partial : forall (cfg : config) (st0 : rstate) (
     (cr_clean c = true -> sp = false) /\
     ((exists (id2 : N) (f : str) (i : N) (cl : str) (c0 : N), In (id2, (lenN (r_links s1), f, i), KRes cl c0) tr) -> sp = true).
 Proof. exact c08_run_session_present_thm. Qed.
+
+(** a resume over a rollover: the saved cursor (offset 0) is stale at the reconnect, the first
+    sweep of the restored request jumps FORWARD to the log's base: Res@0, Jump 0 -> 7, Fwd 7 .. 14 *)
+Theorem c08_run_example_resume_jump :
+  let st := tx_st jx_ops in let tr := tx_tr jx_ops in
+  tx_run jx_ops = Ok (st, tr) /\
+  (exists st0, run_hyps tx_cfg st0 jx_ops st tr) /\
+  ends_of tr = [(0, 0, [0; 1; 2])] /\
+  map kshort (ktrace (2, [116], 0) tr) = (3, 0, 0) :: (1, 0, 7) :: fwds 7 8.
+Proof. exact resume_jump_example. Qed.
+
+(** the connection of the clean reconnect (link 2) is removed: still only the end marker of link 0;
+    the ConnAck of the reconnect: session_present = true when persistent, false when clean *)
+Theorem c08_run_example_clean_end :
+  (exists st0, run_hyps tx_cfg st0 (cx_ops ++ wx_plain [OpDisconnect 0; OpDrain 2])
+                 (tx_st (cx_ops ++ wx_plain [OpDisconnect 0; OpDrain 2])) (tx_tr (cx_ops ++ wx_plain [OpDisconnect 0; OpDrain 2]))) /\
+  ends_of (tx_tr (cx_ops ++ wx_plain [OpDisconnect 0; OpDrain 2])) = [(0, 1, [1; 2])] /\
+  slab_get (r_obufs (tx_st (cx_ops ++ wx_plain [OpDisconnect 0; OpDrain 2]))) 0 = None /\
+  committed_of (tx_st (wx_plain (rx_away ++ [tx_pconn 114]))) 0 = [AConnAck 0 true] /\
+  committed_of (tx_st (wx_plain (rx_away ++ [wx_conn 114]))) 0 = [AConnAck 0 false].
+Proof. exact clean_end_example. Qed.
